@@ -9,6 +9,20 @@ pub proof fn lemma_slot_bounds_class(need: nat)
     requires is_slot_size(need)
     ensures 0 <= class_idx(need) < 16
 {}
+pub proof fn lemma_roundup_val(value: Seq<u8>)
+    requires value.len() <= 0x100_0000
+    ensures is_slot_size(val_need(value)), val_need(value) <= u32::MAX
+{
+    let p = enc_len(value.len()) + value.len();
+    lemma_roundup_slot(enc_len(((p + 7) / 8) as nat) + p);
+}
+pub proof fn lemma_roundup_key(key: Seq<u8>, voff: nat, next: nat)
+    requires key.len() <= 0x1_0000, voff <= u64::MAX, next <= u64::MAX
+    ensures is_slot_size(key_need(key, voff, next)), key_need(key, voff, next) <= u32::MAX
+{
+    let p = enc_len(key.len()) + key.len() + enc_len(voff) + enc_len(next);
+    lemma_roundup_slot(enc_len(((p + 7) / 8) as nat) + p);
+}
 /// frame_outside on a window inside the old file is a frame3
 pub proof fn lemma_frame_outside_3(b0: Seq<u8>, b1: Seq<u8>, o: int, n: int)
     requires frame_outside(b0, b1, o, n), 0 <= o, 0 <= n, o + n <= b0.len()
